@@ -387,6 +387,11 @@ def judge_fault(c, impl, m, res):
                      note="%s.Process(%d).%s(): native call #%d %s raises %s(winerror=%s), pid then %s: outcome outside the specification"
                      % (c["ident"], c["pid"], c["meth"], c["k"], c["call"], c["errno"], c["winerror"], c["state"]))
         return True
+    if c["sticky"] and impl.get("k") == "ad" and m["model"]["sleeps"] > 0 and impl.get("sleeps") != m["spec"]["retries"]:
+        res.disagree("spec", c, impl, m["model"], {"retries": m["spec"]["retries"]},
+                     note="ERROR_PARTIAL_COPY is retried %s times before AccessDenied, the documented number is %s"
+                     % (impl.get("sleeps"), m["spec"]["retries"]))
+        return True
     if not same_outcome(impl, mo) or impl.get("sleeps", 0) != m["model"]["sleeps"]:
         res.disagree("model", c, impl, m["model"], {"cell": m["spec"]["cell"], "allowed": allowed},
                      note="implementation differs from the Lean model (still inside the specification)")
@@ -680,7 +685,7 @@ def correspond(ctx, res):
         emu = emus[ident]
         fam = T.FAMILY[ident]
         meths = sorted(set(emu.process_methods()) | ({"_get_raw_meminfo"} if emu.windows else set()))
-        outs = ctx.driver().batch([{"op": "record", "fam": fam, "method": m} for m in meths])
+        outs = ctx.driver().batch([{"op": "record", "plat": emu.ident, "method": m} for m in meths])
         drv_lines += len(meths)
         rows = {}
         for mname, o in zip(meths, outs):
@@ -743,7 +748,7 @@ def _rerun(ctx, inp, res):
     if kind == "value":
         fam = T.FAMILY[emu.ident]
         meths = sorted(set(emu.process_methods()) | ({"_get_raw_meminfo"} if emu.windows else set()))
-        outs = ctx.driver().batch([{"op": "record", "fam": fam, "method": m} for m in meths])
+        outs = ctx.driver().batch([{"op": "record", "plat": emu.ident, "method": m} for m in meths])
         rows = {}
         for mname, o in zip(meths, outs):
             rows[mname + "@rows"] = o
